@@ -104,11 +104,14 @@ def sortOrders : List Order → List Order
 /-- position of a new batch id among the groups: ascending, `0` (current batch) last (util.go:80-88) -/
 def keyBefore (k x : Nat) : Bool := if k = 0 then false else (x == 0 || decide (k ≤ x))
 
+/-- `sort.Search` + insert of a NEW batch id (util.go:79-92) -/
 def insertKey (k : Nat) : List Nat → List Nat
   | [] => [k]
-  | x :: xs => if k = x then x :: xs else if keyBefore k x then k :: x :: xs else x :: insertKey k xs
+  | x :: xs => if keyBefore k x then k :: x :: xs else x :: insertKey k xs
 
-def batchKeys (os : List Order) : List Nat := os.foldl (fun ks o => insertKey o.batchId ks) []
+/-- the batch ids in group order: a batch id already in the map `groupByBatchID` is not inserted again -/
+def batchKeys (os : List Order) : List Nat :=
+  os.foldl (fun ks o => if ks.contains o.batchId then ks else insertKey o.batchId ks) []
 
 /-- `GroupOrdersByBatchID` -/
 def groupOrders (os : List Order) : List (List Order) :=
